@@ -28,6 +28,8 @@ type stackCfg struct {
 	pDrop     int      // per mille
 	pSendErr  int
 	pRecvErr  int
+	idleAt    [2]int        // the writer of side x pauses before this write (-1: never) ...
+	idle      time.Duration // ... for this long: keepalive pings (5 s / 7 s) go out on the idle connection
 	plain     bool // plain connKit (no Noise): ClientConn / ServerConn used directly
 	realTime  bool // outside the bubble (stream errors make the code sleep while holding a mutex,
 	// which the fake clock of synctest cannot get past)
@@ -168,7 +170,10 @@ func stackBody(r *rng, cfg stackCfg, marker []byte, relay *fakeRelay, resp *stac
 				go func() { // writer on side x
 					defer io.Done()
 					wr := r.sub(10 + x)
-					for _, w := range cfg.writes[x] {
+					for wi, w := range cfg.writes[x] {
+						if cfg.idle > 0 && wi == cfg.idleAt[x] {
+							time.Sleep(cfg.idle)
+						}
 						data := wr.bytes(w)
 						if w >= len(marker) {
 							copy(data, marker)
@@ -273,6 +278,14 @@ func TestGenC05(t *testing.T) {
 				cfg.writes[x] = append(cfg.writes[x], w)
 			}
 		}
+		cfg.idleAt = [2]int{-1, -1}
+		if !real && rr.chance(1, 2) {
+			// an idle period longer than both keepalive intervals somewhere in the transfer
+			cfg.idle = time.Duration(rr.pick([]int{6, 8, 16})) * time.Second
+			for x := 0; x < 2; x++ {
+				cfg.idleAt[x] = rr.intn(len(cfg.writes[x]))
+			}
+		}
 		class := "clean"
 		if real {
 			class = "stream-errors"
@@ -297,6 +310,9 @@ func TestGenC05(t *testing.T) {
 		if pan != "" {
 			q.fail("c05:panic", fmt.Sprintf("case %d: %s", i, truncate(pan, 400)))
 		}
+		if cfg.idle > 0 {
+			q.stat("cases_with_idle_period", 1)
+		}
 		for x := 0; x < 2; x++ {
 			y := 1 - x
 			okp := len(res.read[y]) <= len(res.written[x]) && bytes.Equal(res.read[y], res.written[x][:len(res.read[y])])
@@ -306,12 +322,8 @@ func TestGenC05(t *testing.T) {
 		complete := res.done && len(res.read[1]) == len(res.written[0]) && len(res.read[0]) == len(res.written[1])
 		q.check(complete || visible, "c05:silent-stall:"+kind+":"+class, desc)
 		if class == "clean" {
-			// a clean relay may still see the connection torn down at start-up (a retransmitted SYN
-			// echoed twice: the late echo is an unexpected packet in the data phase); that is a
-			// visible failure, counted separately
-			if !complete {
-				q.stat("clean_cases_failed_visibly_at_startup", 1)
-			}
+			// no relay fault at all: nothing entitles the connection to fail, visibly or not
+			q.check(complete, "c05:fault-free-relay-transfer-incomplete:"+kind, desc)
 		}
 		relay.mu.Lock()
 		nseen := len(relay.seen)
@@ -328,6 +340,9 @@ func TestGenC05(t *testing.T) {
 			if err != nil {
 				q.fail("c05:relay-message-not-a-gbn-packet", fmt.Sprintf("case %d: %x", i, s.msg[:min(8, len(s.msg))]))
 				break
+			}
+			if d, ok := m.(*gbn.PacketData); ok && d.IsPing {
+				q.stat("keepalive_pings_at_relay", 1)
 			}
 			if d, ok := m.(*gbn.PacketData); ok && !d.IsPing {
 				md := mailbox.NewMsgData(0, nil)
